@@ -260,13 +260,21 @@ class Gen:
         """somebody releases: tag x.y.z on a development / stabilization
         branch (the next patch of that line)"""
         heads, tags = self.w.refs()
-        dests = [d for d in self.dests() if d.count('.') >= 1 and
-                 not d.startswith('hotfix/')]
+        dests = [d for d in self.dests() if d.count('.') >= 1]
         if not dests:
             return
-        d = self.rng.choice(dests)
+        self.m_push_tag_on(self.rng.choice(dests))
+
+    def m_push_tag_on(self, d):
+        heads, tags = self.w.refs()
         v = oracle.version_of(d).split('.')
-        if d.startswith('stabilization/'):
+        if d.startswith('hotfix/'):
+            # the next hotfix revision x.y.z.n
+            revs = [int(t.split('.')[3]) for t in tags
+                    if t.count('.') == 3 and t.split('.')[:3] == v and
+                    t.split('.')[3].isdigit()]
+            tag = '%s.%d' % ('.'.join(v), max(revs) + 1 if revs else 1)
+        elif d.startswith('stabilization/'):
             tag = '.'.join(v)
         else:
             patches = [int(t.split('.')[2]) for t in tags
@@ -706,6 +714,10 @@ class Gen:
         """a PR is queued, the queue is evaluated without merging, somebody
         pushes directly on a queued destination, then the builds turn green"""
         dests = [d for d in self.dests() if not d.startswith('hotfix/')]
+        hot = [d for d in self.dests() if d.startswith('hotfix/')]
+        if hot and self.rng.random() < 0.5:
+            # the same on a hotfix branch (its queue is on no merge path)
+            dests = hot
         a = self.new_pr(dests[0], evaluate=False)
         self.queue_pr(a)
         heads = self.w.refs()[0]
@@ -757,7 +769,32 @@ def op_hand_branch_then_merge(g):
     g.m_forward(a, 3)
 
 
+def op_hotfix_two_queues(g):
+    """a hotfix pull request is queued, the hotfix revision it was queued
+    for is released (tag x.y.z.n pushed), a second hotfix pull request gets
+    a queue of its own, everything turns green"""
+    hot = [d for d in g.w.refs()[0] if d.startswith('hotfix/')]
+    if not hot:
+        return g.op_dest_pushed_while_queued()
+    a = g.new_pr(hot[0], evaluate=False)
+    g.queue_pr(a)
+    g.m_push_tag_on(hot[0])
+    b = g.new_pr(hot[0], evaluate=False)
+    g.queue_pr(b)
+    heads = g.w.refs()[0]
+    for n in sorted(heads):
+        if n.startswith('q/'):
+            g.w.do('set_status', ref='tip:' + n, state='SUCCESSFUL')
+    qs = [n for n in sorted(heads) if n.startswith('q/') and
+          not n.startswith('q/w/')]
+    if qs:
+        g.run('commit', 'tip:' + qs[-1])
+    g.run('pr', a['id'])
+    g.run('pr', b['id'])
+
+
 OPENERS = {
+    'hotfix_two_queues': op_hotfix_two_queues,
     'hand_branch_then_merge': op_hand_branch_then_merge,
     'two_prs_same_base': Gen.op_two_prs_same_base,
     'stab_between_devs': Gen.op_stab_between_devs,
